@@ -490,6 +490,25 @@ def _run(ctx):
                          cons, 'lookup priority is %s (expected task, '
                          'branch/env, workflow context, input)' % kinds,
                          ctx.loc(f, n), str(kinds))
+                # within the branch data, a context handed in by the caller
+                # (the outbound context: inbound + what the task has just
+                # published) wins over the stored inbound context
+                par = [i for i, a in enumerate(n.args)
+                       if U.names_in(a) & set(f.params) - {'self'} and
+                       view_arg_kind(a) == 'branch' and
+                       not any((dotted(x) or '').endswith('.in_context')
+                               for x in ast.walk(a))]
+                sto = [i for i, a in enumerate(n.args)
+                       if (dotted(a) or '').endswith('.in_context')]
+                if par and sto:
+                    r5.check(max(par) < min(sto),
+                             ctx.construct(f, n, extra='given context '
+                                           'before stored inbound context'),
+                             'the stored inbound context shadows the context '
+                             'given by the caller: a variable the task has '
+                             'just re-published is read with its inbound '
+                             '(stale) value, e.g. by break-on / continue-on',
+                             ctx.loc(f, n))
     cvi = prog.func(cvq + '.__init__')
     gi_ = prog.func(cvq + '.__getitem__')
     r5.check(any(isinstance(n, ast.For) and dotted(n.iter) == 'self.dicts'
